@@ -259,6 +259,7 @@ theorem verifyLoop_NP (m : OvfMode) (common : List String) (c : Int) :
       refine NP_ite NP_err ?_
       have hsp := hs sp (by simp)
       refine NP_bind (NP_ite hsp.2 (NP_ok _)) fun _ => ?_
+      refine NP_ite NP_err ?_
       refine NP_bind (commonPass_NP common sp.eq common seen) fun seen' => ?_
       refine NP_bind (verifyPrimaryProof_NP vc.o (hv vc (by simp)) m vc.pk sp.eq sp.ne c _ hsp.1) fun _ => ?_
       exact NP_map (ih vcs seen' (by simpa using hl) (fun x hx => hs x (by simp [hx]))
